@@ -169,16 +169,15 @@ impl<W, R, T> Runtime<W, R, T> {
         if let Some(max_size) = self.limits.size_limit {
             let size = value.byte_size();
             let mut stats = self.stats.borrow_mut();
-            stats.size += size;
+            let new_size = stats.size + size;
             if VERBOSE_ALLOC {
-                println!(
-                    "Allocated {size} bytes (total {}) for {value:?}",
-                    stats.size
-                );
+                println!("Allocated {size} bytes (total {new_size}) for {value:?}");
             }
-            if usize::from(stats.size) > max_size {
+            if usize::from(new_size) > max_size {
+                // the value is never created, so its bytes must not stay accounted
                 Err(RuntimeViolation::AllocationLimitReached)
             } else {
+                stats.size = new_size;
                 Ok(size)
             }
         } else {
